@@ -1,6 +1,6 @@
 // c04_driver — C04: run Validator::validateModel on models built through the public API.
 //
-// usage: c04_driver run|describe <cases>
+// usage: c04_driver run|describe|names <cases>
 //   cases: one API script per line (commands separated by ';', see common/script.hpp); the model to validate is
 //          the one in slot 0.
 //   run:      one line per case:
@@ -10,6 +10,8 @@
 //             "W3C MathML DTD error: "; that pass is assumed, not modelled), xml = number of issues whose rule is
 //             XML (libxml2 parse errors; not modelled); err = number of script lines answered ERR(..)/THROW(..).
 //   describe: the same followed by " | <rule int>:<description hex>" for every issue (replays only).
+//   names:    cases are hex-encoded byte strings; one line "<isValidXmlName> <isCellmlIdentifier>" (0/1) per string
+//             (the two functions are defined in validator.cpp without a header: re-declared here, static link).
 // A crash / hang of the library becomes CRASH(sig) / TIMEOUT (common/forkrun.hpp).
 #include <cstdio>
 #include <string>
@@ -21,7 +23,18 @@
 #include "issues.hpp"
 #include "script.hpp"
 
+namespace libcellml {
+bool isValidXmlName(const std::string &name);
+bool isCellmlIdentifier(const std::string &name);
+} // namespace libcellml
+
 using namespace verif;
+
+static std::string namesCase(const std::string &hex)
+{
+    std::string s = hexdecode(hex == "-" ? std::string() : hex);
+    return std::string(libcellml::isValidXmlName(s) ? "1" : "0") + " " + (libcellml::isCellmlIdentifier(s) ? "1" : "0");
+}
 
 static bool gDescribe = false;
 
@@ -79,5 +92,8 @@ int main(int argc, char **argv)
     }
     gDescribe = std::string(argv[1]) == "describe";
     auto cases = readLines(argv[2]);
+    if (std::string(argv[1]) == "names") {
+        return runCases(cases, namesCase, 30);
+    }
     return runCases(cases, runCase, 30);
 }
